@@ -57,6 +57,9 @@ def gen_cases(seed, tier):
         # a user-held interface simulated repeatedly ("pass an existing interface for speed"): the k-th run integrates the same
         # equations as the first (seeded change S5_C04: preparing an interface again appended its sparse stoichiometry a second time)
         if rng.random() < 0.3: c["reuse_interface"] = rng.choice([2, 3])
+        # interfaces prepared up front and simulated afterwards through the simulator object (a parameter sweep): each run integrates
+        # ITS interface's equations, whichever interface was prepared last (seeded change S6_C04)
+        elif rng.random() < 0.25: c["prepared_before_another"] = True
         cases.append(c)
     return cases
 
@@ -82,6 +85,16 @@ def impl_case(case):
         I = SafeModelCSimInterface(M) if case.get("safe") else ModelCSimInterface(M)
         for _ in range(int(case["reuse_interface"])):
             r_ = py_simulate_model(T, Interface=I, stochastic=False, return_dataframe=False, safe=bool(case.get("safe")))
+        arr = np.asarray(r_.py_get_result()); s2i = M.get_species2index()
+        return {"names": names, "rows": {s_: [float(v) for v in arr[:, s2i[s_]]] for s_ in names}, "time": [float(v) for v in T]}
+    if case.get("prepared_before_another"):
+        from bioscrape.simulator import ModelCSimInterface, SafeModelCSimInterface, DeterministicSimulator
+        from bioscrape.types import Model
+        I = SafeModelCSimInterface(M) if case.get("safe") else ModelCSimInterface(M)
+        I.py_prep_deterministic_simulation()
+        D = Model(species=["Dq", "Dr"], reactions=[([], ["Dq"], "massaction", {"k": 3.0}), (["Dq"], ["Dr"], "massaction", {"k": 0.7})], initial_condition_dict={"Dq": 1.0, "Dr": 2.0})
+        ID = ModelCSimInterface(D); ID.py_prep_deterministic_simulation()
+        r_ = DeterministicSimulator().py_simulate(I, T)
         arr = np.asarray(r_.py_get_result()); s2i = M.get_species2index()
         return {"names": names, "rows": {s_: [float(v) for v in arr[:, s2i[s_]]] for s_ in names}, "time": [float(v) for v in T]}
     res = py_simulate_model(T, Model=M, stochastic=False, return_dataframe=True, safe=bool(case.get("safe")))
@@ -158,4 +171,5 @@ def key(case): return json.dumps(case, sort_keys=True)
 def stats(cases):
     from collections import Counter
     return {"families": dict(Counter(c["family"] for c in cases)), "nonuniform_grids": sum(1 for c in cases if len({round(b - a, 9) for a, b in zip(c["times"], c["times"][1:])}) > 1),
-            "runs_on_a_reused_interface": sum(1 for c in cases if c.get("reuse_interface"))}
+            "runs_on_a_reused_interface": sum(1 for c in cases if c.get("reuse_interface")),
+            "runs_on_an_interface_prepared_before_another": sum(1 for c in cases if c.get("prepared_before_another"))}
